@@ -2,9 +2,9 @@
 # run every check's thorough tier in sequence (used for validation runs in the background)
 cd "$(dirname "$0")/.." || exit 2
 sh ./setup.sh || exit 2
-for c in C13 C15 C16 C10 C11 C14 C17 C05 C06 C18 C07 C12 C04 C01 C03 C09 C02 C19 C20 C08; do
+for c in ${THOROUGH_LIST:-C13 C15 C16 C10 C11 C14 C17 C05 C06 C18 C07 C12 C04 C01 C03 C09 C02 C19 C20 C08}; do
   start=$(date +%s)
-  ./check $c --tier thorough > thorough_$c.out 2> thorough_$c.err
+  timeout 5400 ./check $c --tier thorough > thorough_$c.out 2> thorough_$c.err
   rc=$?
   echo "$c rc=$rc secs=$(( $(date +%s) - start )) violations=$(grep -c '^VIOLATION' thorough_$c.out) known=$(grep -c '^KNOWN' thorough_$c.out)"
   tail -2 thorough_$c.err | cut -c1-300
